@@ -387,6 +387,17 @@ func harvestPool() [][]byte {
 	return pool
 }
 
+// seedJobs: the hand-written seeds of the shared list as they are, through both box decoders (X3).  The splice mutations
+// only pick them at random; some are shapes whose two decode paths differed on the bytes BEHIND an inner box (esds
+// descriptors cut short inside mp4a / stsd with a sibling following, finding C03-F7)
+func seedJobs() (jobs []job, descs []string) {
+	for i, s := range bx.Seeds() {
+		jobs = append(jobs, job{kind: "X3", cfg: "-", data: s})
+		descs = append(descs, fmt.Sprintf("sharedseed/%d(%s):%s", i, string(s[4:8]), hx.Hex(s)))
+	}
+	return
+}
+
 var regNames []string
 
 // registeredNames: the box types of the decoder tables (through the C03 hook)
